@@ -24,14 +24,22 @@ Ghost state (all defined from the sequencer's ports only; "…p" = value describ
 Timing convention: decisions are taken by the design in cycle t from registers that describe cycles < t, so every clause
 is stated at the decision cycle with the "p" ghosts (e.g. bus_reset in cycle t => the 300 cycles before t were SE0).
 
-Clauses NOT provable on the unchanged tree (genuine defects, see proposed_fixes/C19_*.diff and the final report):
-  * `no_handshake_start_when_restricted`: DETECT_HS_SUSPEND starts the chirp handshake without looking at
-    full_speed_only / low_speed_only.
-  * `await_timer_within_2p5ms` (invariant behind `host_chirp_deadline`): in AWAIT_HOST_K / AWAIT_HOST_J a K (J) that
-    arrives in exactly the time-out cycle overrides the time-out; the 18-bit timer then runs on for 2^18 cycles and a
-    handshake completed after the 2.5 ms deadline is still accepted.
-Both are too deep for BMC from reset (> 130 000 cycles); tools_c19 style replays on Amaranth's simulator are described in
-the report (script /tmp/agent_E2/replay_c19.py, reproduced in the docstring of `replay_recipe` below).
+Obligations that FAIL on the unchanged tree (three genuine defects; each witness is deeper than 120 000 cycles, so BMC
+from reset cannot reach it and the engine prints `no-failing-input-found`; all three histories were replayed on the real
+class with Amaranth's simulator by replays/C19_witnesses_sim.py, scenarios A, B, C):
+  * cons/pairs_j_phase (behind `enter_hs_only_after_handshake_or_hs_resume`): IN_HOST_J counts a pair (valid_pairs+1) in
+    the cycle line_state_time == 150 even if the J has just ended, and then waits for *another J* (AWAIT_HOST_J), so
+    K, J, glitch, J, glitch, J is accepted as three K-J pairs.       fix: proposed_fixes/C19_pair_counted_on_j_glitch.diff
+  * cons/await_timer_within_2p5ms (behind `host_chirp_deadline`, `enter_hs_by_handshake_only_within_deadline`): in
+    AWAIT_HOST_K / AWAIT_HOST_J a K (J) arriving in exactly the time-out cycle overrides the time-out; the 18-bit timer
+    runs on for 2^18 cycles and a handshake completed after the 2.5 ms deadline is accepted.
+                                                                    fix: proposed_fixes/C19_chirp_timeout_priority.diff
+  * post/no_handshake_start_when_restricted: DETECT_HS_SUSPEND starts the chirp handshake without looking at
+    full_speed_only / low_speed_only.                       fix: proposed_fixes/C19_hs_reset_ignores_speed_restriction.diff
+With proposed_fixes/C19_all.diff applied every obligation is discharged (./patchcheck.sh C19 proposed_fixes/C19_all.diff).
+
+Not covered: the duration of the device's own chirp (the statement gives none; it is 2 ms minus the time the PHY was busy
+before the chirp, see report), the exit conditions of suspend other than the high-speed resume, DISCONNECT timing.
 """
 import z3
 from hwv.contract import B, zx, bvc, bv1
@@ -216,15 +224,15 @@ def body(c, ts, path, X, full=True):
 
     # ------------------------------------------------------------------ vacuity guards
     c.cover("bus_reset_without_vbus", z3.And(bus_reset, z3.Not(vbus)))
-    c.cover("bus_reset_with_vbus_fs", z3.And(bus_reset, vbus, z3.Not(suspended), ge(se0p, T5US)), reach=False)
+    c.cover("bus_reset_with_vbus_fs", z3.And(bus_reset, vbus, S("LS_FS_NON_RESET")), reach=False)
     c.cover("bus_reset_from_suspend", z3.And(bus_reset, vbus, suspended), reach=False)
-    c.cover("bus_reset_hs", z3.And(bus_reset, vbus, hs_reset, S("DETECT_HS_SUSPEND")), reach=False)
-    c.cover("enter_hs_by_handshake", z3.And(enter_hs, pairs == 3, z3.Not(resume_hs)), reach=False)
+    c.cover("bus_reset_hs", z3.And(bus_reset, vbus, S("DETECT_HS_SUSPEND")), reach=False)
+    c.cover("enter_hs_by_handshake", z3.And(enter_hs, z3.Not(resume_hs)), reach=False)
     c.cover("enter_hs_by_resume", z3.And(enter_hs, resume_hs), reach=False)
     c.cover("restricted_in_hs", z3.And(hs_mode, restricted, S("HS_NON_RESET")), reach=False)
-    c.cover("suspend_fs", z3.And(enter_susp, ge(idlep, T3MS)), reach=False)
-    c.cover("suspend_hs", z3.And(enter_susp, hs_suspend), reach=False)
-    c.cover("handshake_timeout", z3.And(awaiting, sc == T2P5MS, c.nx(S("IS_LOW_OR_FULL_SPEED"))), reach=False)
+    c.cover("suspend_fs", z3.And(enter_susp, S("LS_FS_NON_RESET")), reach=False)
+    c.cover("suspend_hs", z3.And(enter_susp, S("DETECT_HS_SUSPEND")), reach=False)
+    c.cover("handshake_timeout", z3.And(awaiting, S("AWAIT_HOST_K"), c.nx(S("IS_LOW_OR_FULL_SPEED"))), reach=False)
     c.cover("restricted_reset_does_not_chirp", z3.And(bus_reset, vbus, restricted, S("LS_FS_NON_RESET")), reach=False)
     c.cover("chirp_starts", z3.And(c.nx(op) != CHIRP, c.nx(op, 2) == CHIRP), reach=False)
 
